@@ -447,11 +447,28 @@ func vC07ProgOne(kind string, referral, authZone, qname vC07Name, emit func(map[
 }
 
 // vC07ZoneFilterOne: the real dnsutil.FilterRRsToZone (what Resolver.answer applies to the upstream Answer
-// section) on A records owned by [owners]
+// section) on records of eight types owned by [owners]
 func vC07ZoneFilterOne(kind string, zone vC07Name, owners []vC07Name, emit func(map[string]any)) {
 	var rrs []dns.RR
 	for i, o := range owners {
-		rrs = append(rrs, vC07RRSpec{owner: o, rrtype: dns.TypeA, class: dns.ClassINET, ttl: 60, ip: []byte{198, 51, 100, byte(i)}}.rr())
+		// every record type the Answer section may carry (the filter looks at the owner whatever the type; an NSEC
+		// record's next-domain clause is covered by the theorem about the translated function, not here)
+		sp := vC07RRSpec{owner: o, rrtype: dns.TypeA, class: dns.ClassINET, ttl: 60, ip: []byte{198, 51, 100, byte(i)}}
+		switch (i + len(owners)) % 8 {
+		case 1:
+			sp.rrtype, sp.target = dns.TypeCNAME, vC07Name{"www", "victim", "l2"}
+		case 2:
+			sp.rrtype, sp.target = dns.TypeNS, vC07Name{"ns", "evil", "l1"}
+		case 3:
+			sp.rrtype = dns.TypeTXT
+		case 4:
+			sp.rrtype, sp.target = dns.TypeDNAME, vC07Name{"victim", "l2"}
+		case 5:
+			sp.rrtype = dns.TypeSOA
+		case 6:
+			sp.rrtype, sp.covered = dns.TypeRRSIG, dns.TypeA
+		}
+		rrs = append(rrs, sp.rr())
 	}
 	kept := dnsutil.FilterRRsToZone(rrs, zone.String())
 	var idx, keptDesc []string
@@ -512,6 +529,7 @@ func TestVerifC07Unit(t *testing.T) {
 	vC07UnitCorpus(t, hostAll, emit)
 	vC07TwoSiteCases(rand.New(rand.NewSource(int64(vC07EnvInt("VERIF_SEED", 1))*7907+5)), 7+n/15, hostAll, emit)
 	vC07DelegCases(rand.New(rand.NewSource(int64(vC07EnvInt("VERIF_SEED", 1))*15485863+9)), 12+n/40, hostAll, emit)
+	vC07MinimizeCases(rand.New(rand.NewSource(int64(vC07EnvInt("VERIF_SEED", 1))*49979687+13)), 20+n/30, emit)
 	vC07UsableCases(r, n/5, hostAll, "", emit)
 	vC07GlueCases(t, r, n/5, hostAll, "", emit)
 	local := hostAll
